@@ -7,7 +7,7 @@
 // solution that yields 2 <= n < 2^64 is pushed through the real au::detail::is_perfect_square /
 // is_prime / find_prime_factor and judged by exact isqrt and the 12-base Miller-Rabin oracle.
 //
-// usage: c12_wrapsq TASKFILE    (lines: "j k Alo Ahi", inclusive, decimal)
+// usage: c12_wrapsq TASKFILE DO_FACTOR   (lines: "j k Alo Ahi", inclusive, decimal)
 #pragma once
 #include <algorithm>
 
@@ -98,6 +98,7 @@ inline int wrapsq_main(int argc, char **argv) {
     const bool ok = solver_selftest(cases);
     std::printf("T {\"solver_selftest_ok\":%d,\"cases\":%llu}\n", (int)ok, cases);
     if (!ok) return 0;
+    const bool DF = argc > 2 ? std::atoi(argv[2]) != 0 : true;
     FILE *f = std::fopen(argv[1], "r");
     if (!f) return 2;
     Tally t;
@@ -145,7 +146,7 @@ inline int wrapsq_main(int argc, char **argv) {
                                     pr, w.index, u64s(w.iterate).c_str());
                     }
                     prime_cands += is_prime_mr12(n);
-                    check_n(n, "wrap-collision", t, -1, /*do_factor=*/coll);
+                    check_n(n, "wrap-collision", t, -1, /*do_factor=*/coll && DF);
                 }
             }
             if (A == ahi) break;
